@@ -53,8 +53,10 @@ def gen_script(rng, nops, emphasis="mixed", with_identity=True, with_zero=False)
     # one of them again in another representation (equal elements, different coordinates)
     toks.append("raw:" + rep_tok(rng, chosen[0], rep=rng.randrange(4)))
     nreg += 1
+    zero_reg = None
     if with_zero:
         toks.append("raw:0.0.0")
+        zero_reg = nreg
         nreg += 1
     if rng.random() < 0.5:
         toks.append(rng.choice(["gen", "id", "crs:%d" % rng.randrange(256)]))
@@ -95,6 +97,17 @@ def gen_script(rng, nops, emphasis="mixed", with_identity=True, with_zero=False)
             kind = rng.choice(["msm:%d:%d" % (rng.choice([0, 1, 2, 3, 16]), rng.randrange(2)), "ms:-:-",
                                "msx:%d:%d" % (rng.choice([0, 1, 4]), rng.randrange(2))])
             toks.append("%s:%s:%s" % (kind, ",".join(map(str, idx)) or "-", ",".join("%x" % s for s in ss) or "-"))
+        elif k < 0.905:
+            # table-driven scalar multiplications accumulated into one point; repeated base points with equal
+            # scalars make the accumulator meet a table entry equal to itself (P + P through the mixed addition)
+            lo = 1 if with_zero else 0
+            cand = [q for q in range(nreg) if not (with_zero and q == zero_reg)]
+            i0 = rng.choice(cand)
+            pat = rng.random()
+            idx = [i0, i0] if pat < 0.5 else ([i0, rng.choice(cand), i0] if pat < 0.75 else [rng.choice(cand) for _ in range(rng.randrange(1, 4))])
+            s0 = rng.choice([1, 2, 3, 5, 127, 128, 255, 256, 2 ** 64 + 3, scalars(rng)])
+            ss = [s0 if (rng.random() < 0.7 or j == 0) else scalars(rng) for j in range(len(idx))]
+            toks.append("pcsm:%s:%s" % (",".join(map(str, idx)), ",".join("%x" % v for v in ss)))
         elif k < 0.93:
             m = rng.randrange(1, 4)
             kv = ",".join("%d=%x" % (rng.randrange(256), scalars(rng)) for _ in range(m))
